@@ -78,6 +78,9 @@ class Deps:
                 st.mem.objs[p.obj] = [[T(0)] * 8 for _ in st.mem.objs[p.obj]]; st.mem.owned.add(p.obj)
             return None
         st.trace.append(('memzero', repr(p), n, inst.loc))
+        if isinstance(p, BV) and p.concrete() == 0:
+            st.events.append(('memzero-null', inst.loc)); I.null_derefs.append((inst.loc, 'dep:memzero(NULL, %d)' % n, [], not st.cons.opaque))
+            return None
         obj, off = I._cells(st, p, n, inst, 'store')
         if obj is None: raise Unmodelled('memzero through a symbolic pointer at %s' % inst.loc)
         cells = st.mem.wcells(obj)
